@@ -11,7 +11,8 @@ subset (anything else: fail closed, exit status 2 with the source location):
   name = <n-expr> | <bytes-expr>                                  locals
   if no_nulls: / if datapage_version == 1: ... else: ...          the two parameters
   return <bytes-expr>[, anything]                                 the block (make_definitions also returns the data: ignored)
-  n-expr:     int literals, len(data), len(<bytes local>), T.tell(), width (= 8 * itemsize), + - * // << | (with literals)
+  A = data.values ; A = A.astype(..) / A.view(..) (also under an `if`)   locals holding the codes array: `codes` or `cast`
+  n-expr:     int literals, len(data), len(A), A.dtype.itemsize, len(<bytes local>), T.tell(), width (= 8 * itemsize), + - * // << | (with literals)
   bytes-expr: T.so_far(), bytes(..), struct.pack('<I', <n>), a + b, data.values.tobytes() (the codes, little endian),
               encode_plain(<notnull mask>, <BOOLEAN element>) = the parameter `packed` (PLAIN booleans of the not-null mask as
               writer.convert packs them: its own relation 'decodes to the input' is proved / checked separately)
@@ -51,6 +52,13 @@ class Fn:
             return self.data_len
         if src == "data.values.dtype.itemsize" and "itemsize" in self.nparams:
             return self.nparams["itemsize"]
+        if isinstance(e, ast.Attribute) and e.attr == "itemsize" and isinstance(e.value, ast.Attribute) and e.value.attr == "dtype" \
+                and isinstance(e.value.value, ast.Name) and e.value.value.id in st["arrl"] and "itemsize" in self.nparams:
+            # item size of a local that holds the codes: the codes' own, or that of whatever they were cast to
+            return self.nparams["itemsize"] if st["arrl"][e.value.value.id] == "codes" else "(N.of_nat castk)"
+        if isinstance(e, ast.Call) and isinstance(e.func, ast.Name) and e.func.id == "len" and len(e.args) == 1 \
+                and isinstance(e.args[0], ast.Name) and e.args[0].id in st["arrl"]:
+            return self.data_len
         if isinstance(e, ast.Call) and isinstance(e.func, ast.Name) and e.func.id == "len" and len(e.args) == 1:
             return "(lenN %s)" % self.b(e.args[0], st)
         if isinstance(e, ast.Call) and isinstance(e.func, ast.Attribute) and e.func.attr == "tell" and not e.args \
@@ -79,6 +87,12 @@ class Fn:
             return "(le_enc 4 %s)" % self.n(e.args[1], st)
         if src == "data.values.tobytes()" and self.body_bytes:
             return self.body_bytes
+        if isinstance(e, ast.Call) and isinstance(e.func, ast.Attribute) and e.func.attr == "tobytes" and not e.args \
+                and isinstance(e.func.value, ast.Name) and e.func.value.id in st["arrl"] and self.body_bytes:
+            if st["arrl"][e.func.value.id] == "codes":
+                return self.body_bytes
+            self.cast = True
+            return "(wr_codes castk codes)"
         if isinstance(e, ast.Call) and isinstance(e.func, ast.Name) and e.func.id == "encode_plain" and len(e.args) == 2 \
                 and isinstance(e.args[0], ast.Name) and e.args[0].id in st["mask"] and isinstance(e.args[1], ast.Name) \
                 and e.args[1].id in st["boolse"]:
@@ -96,14 +110,29 @@ class Fn:
             return "(%s =? %d)" % (self.nparams[e.left.id], e.comparators[0].value)
         fail(e, "unsupported condition %s" % src[:60])
 
+    def recasts(self, s, st):
+        """an `if` that only re-represents the codes array (astype / view): whatever the condition, the bytes behind the header
+        may then be another representation than the codes themselves"""
+        stmts = s.body + s.orelse
+        ok = stmts and all(isinstance(x, ast.Assign) and len(x.targets) == 1 and isinstance(x.targets[0], ast.Name)
+                           and x.targets[0].id in st["arrl"] and isinstance(x.value, ast.Call) and isinstance(x.value.func, ast.Attribute)
+                           and x.value.func.attr in ("astype", "view") for x in stmts)
+        if ok:
+            for x in stmts:
+                st["arrl"][x.targets[0].id] = "cast"
+        return ok
+
     # -- statements -------------------------------------------------------------------------
     def block(self, stmts, st, ind):
         pad = "  " * ind
         st = {k: (dict(v) if isinstance(v, dict) else set(v)) for k, v in st.items()}
+        st.setdefault("arrl", {})
         st["io"] = {k: (c, list(p)) for k, (c, p) in st["io"].items()}
         for i, s in enumerate(stmts):
             rest = stmts[i + 1:]
             if isinstance(s, ast.Expr) and isinstance(s.value, ast.Constant) and isinstance(s.value.value, str):
+                continue
+            if isinstance(s, ast.If) and self.body_bytes and self.recasts(s, st):
                 continue
             if isinstance(s, ast.If):
                 return (pad + "if %s then\n" % self.cond(s.test) + self.block(s.body + rest, st, ind + 1) + "\n" + pad + "else\n"
@@ -123,6 +152,13 @@ class Fn:
                 if isinstance(e, ast.Call) and ast.unparse(e.func) == "NumpyIO" and len(e.args) == 1 \
                         and isinstance(e.args[0], ast.Name) and e.args[0].id in st["arr"]:
                     st["io"][name] = (st["arr"][e.args[0].id], [])
+                    continue
+                if self.body_bytes and src == "data.values":
+                    st["arrl"][name] = "codes"
+                    continue
+                if self.body_bytes and isinstance(e, ast.Call) and isinstance(e.func, ast.Attribute) and e.func.attr in ("astype", "view") \
+                        and isinstance(e.func.value, ast.Name) and e.func.value.id in st["arrl"]:
+                    st["arrl"][name] = "cast"         # another representation of the codes follows the header
                     continue
                 if src == "data.notnull()":
                     st["mask"].add(name)
@@ -163,18 +199,22 @@ def translate(src):
     md = fns["make_definitions"]
     if [a.arg for a in md.args.args] != ["data", "no_nulls", "datapage_version"]:
         fail(md, "make_definitions parameters changed")
-    empty = {"n": {}, "b": {}, "io": {}, "arr": {}, "mask": set(), "boolse": set()}
+    empty = {"n": {}, "b": {}, "io": {}, "arr": {}, "mask": set(), "boolse": set(), "arrl": {}}
     t1 = Fn(md, {"datapage_version": "version"}, {"no_nulls": "no_nulls"}, "n", None).block(md.body, empty, 1)
     ed = fns["encode_dict"]
     if len(ed.args.args) != 2 or ed.args.args[0].arg != "data":
         fail(ed, "encode_dict parameters changed")
-    t2 = Fn(ed, {"itemsize": "(N.of_nat k)"}, {}, "(lenN codes)", "(wr_codes k codes)").block(ed.body, empty, 1)
+    f2 = Fn(ed, {"itemsize": "(N.of_nat k)"}, {}, "(lenN codes)", "(wr_codes k codes)")
+    f2.cast = False
+    t2 = f2.block(ed.body, empty, 1)
     out = ["(* generated by translators/writer2coq.py from fastparquet/writer.py - do not edit *)",
            "From Coq Require Import NArith List Bool.",
            "From Pq Require Import Base.Bytes Base.ListX Codec.Varint Impl.WLevels.",
            "Import ListNotations.\nOpen Scope N_scope.\n",
            "Definition gen_make_definitions (no_nulls : bool) (version n : N) (packed : bytes) : bytes :=\n%s.\n" % t1,
-           "Definition gen_encode_dict (k : nat) (codes : list N) : bytes :=\n%s.\n" % t2]
+           "(* are the bytes behind the run header the codes array itself (signed integers of k bytes, as pandas holds them)? *)",
+           "Definition gen_encode_dict_keeps_codes : bool := %s.\n" % ("false" if f2.cast else "true"),
+           "Definition gen_encode_dict (k : nat) %s(codes : list N) : bytes :=\n%s.\n" % ("(castk : nat) " if f2.cast else "", t2)]
     return "\n".join(out)
 
 
